@@ -269,3 +269,325 @@ package lua
 //@ loop 1 invariant forall k int :: 0 <= k && k < old(top(L)) ==> L.reg.array[k] == old(L.reg.array[k])
 //@ loop 1 invariant arrid(tb.array) == old(arrid(argTab(L, 1).array)) && len(tb.array) == old(len(argTab(L, 1).array)) && offset(tb.array) == 0 && forall k int :: 0 <= k && k < len(tb.array) ==> tb.array[k] == old(argTab(L, 1).array[k])
 //@ loop 1 invariant forall k int :: old(top(L)) <= k && k < top(L) ==> L.reg.array[k] == old(ite(1 <= unpackFrom(L) + k - top(L) && unpackFrom(L) + k - top(L) <= len(argTab(L, 1).array), argTab(L, 1).array[unpackFrom(L) + k - top(L) - 1], LNil))
+
+// ---------------------------------------------------------------------------
+// math library (mathlib.go), manual §5.6: every wrapper pushes exactly the named Go function of its arguments, in the
+// documented order, and returns the right count. The IEEE exactness of math.* itself is the Go library's (assumed).
+// ---------------------------------------------------------------------------
+
+//@ trusted parseNumber
+//@ assume parseNumber is a pure function of its argument (strconv based); its language is the subject of C16
+//@ noraise
+//@ modifies nothing
+
+//@ uninterp m_Abs(x float64) float64
+//@ extern math.Abs
+//@ noraise
+//@ ensures same(result, m_Abs(x))
+//@ modifies nothing
+
+//@ func mathAbs [C15]
+//@ requires Inv_gfn(L) && isNum(arg(L, 1))
+//@ raises when top(L) + 1 > cap(L.reg.array)
+//@ ensures  result == 1 && top(L) == old(top(L)) + 1 && argsKept(L) && pushed(L, 0) == old(mkNum(m_Abs(num(arg(L, 1)))))
+//@ modifies L.reg.array, L.reg.top, L.reg.array[*]
+
+//@ uninterp m_Acos(x float64) float64
+//@ extern math.Acos
+//@ noraise
+//@ ensures same(result, m_Acos(x))
+//@ modifies nothing
+
+//@ func mathAcos [C15]
+//@ requires Inv_gfn(L) && isNum(arg(L, 1))
+//@ raises when top(L) + 1 > cap(L.reg.array)
+//@ ensures  result == 1 && top(L) == old(top(L)) + 1 && argsKept(L) && pushed(L, 0) == old(mkNum(m_Acos(num(arg(L, 1)))))
+//@ modifies L.reg.array, L.reg.top, L.reg.array[*]
+
+//@ uninterp m_Asin(x float64) float64
+//@ extern math.Asin
+//@ noraise
+//@ ensures same(result, m_Asin(x))
+//@ modifies nothing
+
+//@ func mathAsin [C15]
+//@ requires Inv_gfn(L) && isNum(arg(L, 1))
+//@ raises when top(L) + 1 > cap(L.reg.array)
+//@ ensures  result == 1 && top(L) == old(top(L)) + 1 && argsKept(L) && pushed(L, 0) == old(mkNum(m_Asin(num(arg(L, 1)))))
+//@ modifies L.reg.array, L.reg.top, L.reg.array[*]
+
+//@ uninterp m_Atan(x float64) float64
+//@ extern math.Atan
+//@ noraise
+//@ ensures same(result, m_Atan(x))
+//@ modifies nothing
+
+//@ func mathAtan [C15]
+//@ requires Inv_gfn(L) && isNum(arg(L, 1))
+//@ raises when top(L) + 1 > cap(L.reg.array)
+//@ ensures  result == 1 && top(L) == old(top(L)) + 1 && argsKept(L) && pushed(L, 0) == old(mkNum(m_Atan(num(arg(L, 1)))))
+//@ modifies L.reg.array, L.reg.top, L.reg.array[*]
+
+//@ uninterp m_Ceil(x float64) float64
+//@ extern math.Ceil
+//@ noraise
+//@ ensures same(result, m_Ceil(x))
+//@ modifies nothing
+
+//@ func mathCeil [C15]
+//@ requires Inv_gfn(L) && isNum(arg(L, 1))
+//@ raises when top(L) + 1 > cap(L.reg.array)
+//@ ensures  result == 1 && top(L) == old(top(L)) + 1 && argsKept(L) && pushed(L, 0) == old(mkNum(m_Ceil(num(arg(L, 1)))))
+//@ modifies L.reg.array, L.reg.top, L.reg.array[*]
+
+//@ uninterp m_Cos(x float64) float64
+//@ extern math.Cos
+//@ noraise
+//@ ensures same(result, m_Cos(x))
+//@ modifies nothing
+
+//@ func mathCos [C15]
+//@ requires Inv_gfn(L) && isNum(arg(L, 1))
+//@ raises when top(L) + 1 > cap(L.reg.array)
+//@ ensures  result == 1 && top(L) == old(top(L)) + 1 && argsKept(L) && pushed(L, 0) == old(mkNum(m_Cos(num(arg(L, 1)))))
+//@ modifies L.reg.array, L.reg.top, L.reg.array[*]
+
+//@ uninterp m_Cosh(x float64) float64
+//@ extern math.Cosh
+//@ noraise
+//@ ensures same(result, m_Cosh(x))
+//@ modifies nothing
+
+//@ func mathCosh [C15]
+//@ requires Inv_gfn(L) && isNum(arg(L, 1))
+//@ raises when top(L) + 1 > cap(L.reg.array)
+//@ ensures  result == 1 && top(L) == old(top(L)) + 1 && argsKept(L) && pushed(L, 0) == old(mkNum(m_Cosh(num(arg(L, 1)))))
+//@ modifies L.reg.array, L.reg.top, L.reg.array[*]
+
+//@ uninterp m_Exp(x float64) float64
+//@ extern math.Exp
+//@ noraise
+//@ ensures same(result, m_Exp(x))
+//@ modifies nothing
+
+//@ func mathExp [C15]
+//@ requires Inv_gfn(L) && isNum(arg(L, 1))
+//@ raises when top(L) + 1 > cap(L.reg.array)
+//@ ensures  result == 1 && top(L) == old(top(L)) + 1 && argsKept(L) && pushed(L, 0) == old(mkNum(m_Exp(num(arg(L, 1)))))
+//@ modifies L.reg.array, L.reg.top, L.reg.array[*]
+
+//@ uninterp m_Floor(x float64) float64
+//@ extern math.Floor
+//@ noraise
+//@ ensures same(result, m_Floor(x))
+//@ modifies nothing
+
+//@ func mathFloor [C15]
+//@ requires Inv_gfn(L) && isNum(arg(L, 1))
+//@ raises when top(L) + 1 > cap(L.reg.array)
+//@ ensures  result == 1 && top(L) == old(top(L)) + 1 && argsKept(L) && pushed(L, 0) == old(mkNum(m_Floor(num(arg(L, 1)))))
+//@ modifies L.reg.array, L.reg.top, L.reg.array[*]
+
+//@ uninterp m_Log(x float64) float64
+//@ extern math.Log
+//@ noraise
+//@ ensures same(result, m_Log(x))
+//@ modifies nothing
+
+//@ func mathLog [C15]
+//@ requires Inv_gfn(L) && isNum(arg(L, 1))
+//@ raises when top(L) + 1 > cap(L.reg.array)
+//@ ensures  result == 1 && top(L) == old(top(L)) + 1 && argsKept(L) && pushed(L, 0) == old(mkNum(m_Log(num(arg(L, 1)))))
+//@ modifies L.reg.array, L.reg.top, L.reg.array[*]
+
+//@ uninterp m_Log10(x float64) float64
+//@ extern math.Log10
+//@ noraise
+//@ ensures same(result, m_Log10(x))
+//@ modifies nothing
+
+//@ func mathLog10 [C15]
+//@ requires Inv_gfn(L) && isNum(arg(L, 1))
+//@ raises when top(L) + 1 > cap(L.reg.array)
+//@ ensures  result == 1 && top(L) == old(top(L)) + 1 && argsKept(L) && pushed(L, 0) == old(mkNum(m_Log10(num(arg(L, 1)))))
+//@ modifies L.reg.array, L.reg.top, L.reg.array[*]
+
+//@ uninterp m_Sin(x float64) float64
+//@ extern math.Sin
+//@ noraise
+//@ ensures same(result, m_Sin(x))
+//@ modifies nothing
+
+//@ func mathSin [C15]
+//@ requires Inv_gfn(L) && isNum(arg(L, 1))
+//@ raises when top(L) + 1 > cap(L.reg.array)
+//@ ensures  result == 1 && top(L) == old(top(L)) + 1 && argsKept(L) && pushed(L, 0) == old(mkNum(m_Sin(num(arg(L, 1)))))
+//@ modifies L.reg.array, L.reg.top, L.reg.array[*]
+
+//@ uninterp m_Sinh(x float64) float64
+//@ extern math.Sinh
+//@ noraise
+//@ ensures same(result, m_Sinh(x))
+//@ modifies nothing
+
+//@ func mathSinh [C15]
+//@ requires Inv_gfn(L) && isNum(arg(L, 1))
+//@ raises when top(L) + 1 > cap(L.reg.array)
+//@ ensures  result == 1 && top(L) == old(top(L)) + 1 && argsKept(L) && pushed(L, 0) == old(mkNum(m_Sinh(num(arg(L, 1)))))
+//@ modifies L.reg.array, L.reg.top, L.reg.array[*]
+
+//@ uninterp m_Sqrt(x float64) float64
+//@ extern math.Sqrt
+//@ noraise
+//@ ensures same(result, m_Sqrt(x))
+//@ modifies nothing
+
+//@ func mathSqrt [C15]
+//@ requires Inv_gfn(L) && isNum(arg(L, 1))
+//@ raises when top(L) + 1 > cap(L.reg.array)
+//@ ensures  result == 1 && top(L) == old(top(L)) + 1 && argsKept(L) && pushed(L, 0) == old(mkNum(m_Sqrt(num(arg(L, 1)))))
+//@ modifies L.reg.array, L.reg.top, L.reg.array[*]
+
+//@ uninterp m_Tan(x float64) float64
+//@ extern math.Tan
+//@ noraise
+//@ ensures same(result, m_Tan(x))
+//@ modifies nothing
+
+//@ func mathTan [C15]
+//@ requires Inv_gfn(L) && isNum(arg(L, 1))
+//@ raises when top(L) + 1 > cap(L.reg.array)
+//@ ensures  result == 1 && top(L) == old(top(L)) + 1 && argsKept(L) && pushed(L, 0) == old(mkNum(m_Tan(num(arg(L, 1)))))
+//@ modifies L.reg.array, L.reg.top, L.reg.array[*]
+
+//@ uninterp m_Tanh(x float64) float64
+//@ extern math.Tanh
+//@ noraise
+//@ ensures same(result, m_Tanh(x))
+//@ modifies nothing
+
+//@ func mathTanh [C15]
+//@ requires Inv_gfn(L) && isNum(arg(L, 1))
+//@ raises when top(L) + 1 > cap(L.reg.array)
+//@ ensures  result == 1 && top(L) == old(top(L)) + 1 && argsKept(L) && pushed(L, 0) == old(mkNum(m_Tanh(num(arg(L, 1)))))
+//@ modifies L.reg.array, L.reg.top, L.reg.array[*]
+
+//@ uninterp m_Atan2(y float64, x float64) float64
+//@ extern math.Atan2
+//@ noraise
+//@ ensures same(result, m_Atan2(y, x))
+//@ modifies nothing
+
+//@ func mathAtan2 [C15]
+//@ requires Inv_gfn(L) && isNum(arg(L, 1)) && isNum(arg(L, 2))
+//@ raises when top(L) + 1 > cap(L.reg.array)
+//@ ensures  result == 1 && top(L) == old(top(L)) + 1 && argsKept(L) && pushed(L, 0) == old(mkNum(m_Atan2(num(arg(L, 1)), num(arg(L, 2)))))
+//@ modifies L.reg.array, L.reg.top, L.reg.array[*]
+
+//@ uninterp m_Mod(x float64, y float64) float64
+//@ extern math.Mod
+//@ noraise
+//@ ensures same(result, m_Mod(x, y))
+//@ modifies nothing
+
+//@ func mathFmod [C15]
+//@ requires Inv_gfn(L) && isNum(arg(L, 1)) && isNum(arg(L, 2))
+//@ raises when top(L) + 1 > cap(L.reg.array)
+//@ ensures  result == 1 && top(L) == old(top(L)) + 1 && argsKept(L) && pushed(L, 0) == old(mkNum(m_Mod(num(arg(L, 1)), num(arg(L, 2)))))
+//@ modifies L.reg.array, L.reg.top, L.reg.array[*]
+
+//@ uninterp m_Pow(x float64, y float64) float64
+//@ extern math.Pow
+//@ noraise
+//@ ensures same(result, m_Pow(x, y))
+//@ modifies nothing
+
+//@ func mathPow [C15]
+//@ requires Inv_gfn(L) && isNum(arg(L, 1)) && isNum(arg(L, 2))
+//@ raises when top(L) + 1 > cap(L.reg.array)
+//@ ensures  result == 1 && top(L) == old(top(L)) + 1 && argsKept(L) && pushed(L, 0) == old(mkNum(m_Pow(num(arg(L, 1)), num(arg(L, 2)))))
+//@ modifies L.reg.array, L.reg.top, L.reg.array[*]
+
+//@ uninterp m_Ldexp(frac float64, exp int) float64
+//@ extern math.Ldexp
+//@ noraise
+//@ ensures same(result, m_Ldexp(frac, exp))
+//@ modifies nothing
+
+//@ func mathLdexp [C15]
+//@ requires Inv_gfn(L) && isNum(arg(L, 1)) && isNum(arg(L, 2))
+//@ raises when top(L) + 1 > cap(L.reg.array)
+//@ ensures  result == 1 && top(L) == old(top(L)) + 1 && argsKept(L) && pushed(L, 0) == old(mkNum(m_Ldexp(num(arg(L, 1)), f2i(num(arg(L, 2))))))
+//@ modifies L.reg.array, L.reg.top, L.reg.array[*]
+
+//@ uninterp m_FrexpFrac(f float64) float64
+//@ uninterp m_FrexpExp(f float64) int
+//@ extern math.Frexp
+//@ noraise
+//@ ensures same(result0, m_FrexpFrac(f)) && result1 == m_FrexpExp(f)
+//@ modifies nothing
+
+//@ func mathFrexp [C15]
+//@ requires Inv_gfn(L) && isNum(arg(L, 1))
+//@ raises when top(L) + 2 > cap(L.reg.array)
+//@ ensures  result == 2 && top(L) == old(top(L)) + 2 && argsKept(L) && pushed(L, 0) == old(mkNum(m_FrexpFrac(num(arg(L, 1))))) && pushed(L, 1) == old(mkNum(i2f(m_FrexpExp(num(arg(L, 1))))))
+//@ modifies L.reg.array, L.reg.top, L.reg.array[*]
+
+//@ uninterp m_ModfInt(f float64) float64
+//@ uninterp m_ModfFrac(f float64) float64
+//@ extern math.Modf
+//@ noraise
+//@ ensures same(result0, m_ModfInt(f)) && same(result1, m_ModfFrac(f))
+//@ modifies nothing
+
+//@ func mathModf [C15]
+//@ requires Inv_gfn(L) && isNum(arg(L, 1))
+//@ raises when top(L) + 2 > cap(L.reg.array)
+//@ ensures  result == 2 && top(L) == old(top(L)) + 2 && argsKept(L) && pushed(L, 0) == old(mkNum(m_ModfInt(num(arg(L, 1))))) && pushed(L, 1) == old(mkNum(m_ModfFrac(num(arg(L, 1)))))
+//@ modifies L.reg.array, L.reg.top, L.reg.array[*]
+
+// math.max / math.min: the result is one of the arguments and no argument is greater / smaller
+//@ func mathMax [C15]
+//@ requires Inv_gfn(L) && nargs(L) >= 1 && (forall r int :: base(L) <= r && r < top(L) ==> isNum(L.reg.array[r]))
+//@ raises when top(L) + 1 > cap(L.reg.array)
+//@ ensures  result == 1 && top(L) == old(top(L)) + 1 && argsKept(L) && isNum(pushed(L, 0))
+//@ ensures  "is-argument": exists r int :: old(base(L)) <= r && r < old(top(L)) && pushed(L, 0) == old(L.reg.array[r])
+//@ ensures  "upper-bound": forall r int :: old(base(L)) <= r && r < old(top(L)) ==> !(num(old(L.reg.array[r])) > num(pushed(L, 0)))
+//@ modifies L.reg.array, L.reg.top, L.reg.array[*]
+//@ loop 1 invariant Inv_gfn(L) && 2 <= i && i <= top + 1 && top == old(nargs(L)) && top(L) == old(top(L)) && base(L) == old(base(L)) && L.reg == old(L.reg) && arrid(L.reg.array) == old(arrid(L.reg.array))
+//@ loop 1 invariant forall k int :: 0 <= k && k < top(L) ==> L.reg.array[k] == old(L.reg.array[k])
+//@ loop 1 invariant exists r int :: old(base(L)) <= r && r < old(base(L)) + i - 1 && mkNum(max) == old(L.reg.array[r])
+//@ loop 1 invariant forall r int :: old(base(L)) <= r && r < old(base(L)) + i - 1 ==> !(num(old(L.reg.array[r])) > max)
+
+//@ func mathMin [C15]
+//@ requires Inv_gfn(L) && nargs(L) >= 1 && (forall r int :: base(L) <= r && r < top(L) ==> isNum(L.reg.array[r]))
+//@ raises when top(L) + 1 > cap(L.reg.array)
+//@ ensures  result == 1 && top(L) == old(top(L)) + 1 && argsKept(L) && isNum(pushed(L, 0))
+//@ ensures  "is-argument": exists r int :: old(base(L)) <= r && r < old(top(L)) && pushed(L, 0) == old(L.reg.array[r])
+//@ ensures  "lower-bound": forall r int :: old(base(L)) <= r && r < old(top(L)) ==> !(num(old(L.reg.array[r])) < num(pushed(L, 0)))
+//@ modifies L.reg.array, L.reg.top, L.reg.array[*]
+//@ loop 1 invariant Inv_gfn(L) && 2 <= i && i <= top + 1 && top == old(nargs(L)) && top(L) == old(top(L)) && base(L) == old(base(L)) && L.reg == old(L.reg) && arrid(L.reg.array) == old(arrid(L.reg.array))
+//@ loop 1 invariant forall k int :: 0 <= k && k < top(L) ==> L.reg.array[k] == old(L.reg.array[k])
+//@ loop 1 invariant exists r int :: old(base(L)) <= r && r < old(base(L)) + i - 1 && mkNum(min) == old(L.reg.array[r])
+//@ loop 1 invariant forall r int :: old(base(L)) <= r && r < old(base(L)) + i - 1 ==> !(num(old(L.reg.array[r])) < min)
+
+// math.random(m [, n]): the result lies in [1,m] / [m,n]
+//@ extern rand.Intn
+//@ assume math/rand.Intn(n) returns a value in [0,n) and panics for n <= 0 (Go documentation)
+//@ requires n > 0
+//@ noraise
+//@ ensures 0 <= result && result < n
+//@ modifies nothing
+//@ extern rand.Float64
+//@ noraise
+//@ modifies nothing
+
+//@ func mathRandom [C15]
+//@ requires Inv_gfn(L) && (nargs(L) >= 1 ==> isNum(arg(L, 1))) && (nargs(L) >= 2 ==> isNum(arg(L, 2)))
+//@ requires nargs(L) == 1 ==> f2i(num(arg(L, 1))) >= 1
+//@ requires nargs(L) >= 2 ==> f2i(num(arg(L, 1))) <= f2i(num(arg(L, 2)))
+//@ raises when top(L) + 1 > cap(L.reg.array)
+//@ ensures  result == 1 && top(L) == old(top(L)) + 1 && argsKept(L)
+//@ ensures  old(nargs(L)) == 1 ==> exists r int :: 1 <= r && r <= old(f2i(num(arg(L, 1)))) && pushed(L, 0) == mkNum(i2f(r))
+//@ ensures  old(nargs(L)) >= 2 ==> exists r int :: old(f2i(num(arg(L, 1)))) <= r && r <= old(f2i(num(arg(L, 2)))) && pushed(L, 0) == mkNum(i2f(r))
+//@ modifies L.reg.array, L.reg.top, L.reg.array[*]
